@@ -464,10 +464,10 @@ func (c *caseRun) judge(step int, cmd cmdSpec, pre state, res sbx.Result, post s
 				for _, k := range filterKeys {
 					if e, ok := pre.lastInScope(s, "filter.lfs."+k); ok && !filterIsKnown(k, e.Value) && trig == "" {
 						store := c.originStore(e)
-						trig = "filter-custom-" + k + "@" + store
 						if store == "xdg" && !judgeXDGShadow {
 							continue
 						}
+						trig = "filter-custom-" + k + "@" + store
 						if store == "xdg" {
 							// The effective global value lives in $XDG_CONFIG_HOME/git/config while ~/.gitconfig
 							// exists too; key-independent coordinate (see report: candidate finding).
